@@ -20,14 +20,16 @@ ID = "C02"
 LEAN_MODULES = ["NiftyVerif.Props.C02"]
 DRIVER = "Driver/C02.lean"
 TRANSLATORS = []
-OBLIGATIONS_ALL = ["NiftyVerif.C02." + t for t in (
-    "coo_adjoint", "coo_linear", "coo_dense_adj", "coo_comp", "coo_apply_dense", "ravel_unravel_id", "unravel_ravel_id",
-    "gather_spec", "gather_adj_spec", "contraction_spec", "contraction_adj_spec", "distributor1_spec",
-    "distributor1_adj_spec", "mask_spec", "mask_adj_spec", "mask_rows", "pad1_plain_spec", "pad1_central_spec",
-    "valueInserter_spec", "outerProduct_spec", "vdot_spec", "weightApplier_spec", "weightApplier_modes",
-    "transpose_wf", "conjugation_involutive", "realizer_idempotent", "regrid1_spec", "matrixProduct1_spec",
-    "diag_spec", "ofRows_adjoint", "cq_isConj")]
-OBLIGATIONS = ["NiftyVerif.C02.coo_adjoint"]
+OBLIGATIONS = ["NiftyVerif.C02." + t for t in (
+    # generic: every well-formed COO operator, all sizes
+    "coo_adjoint", "coo_linear", "coo_dense_adj", "coo_comp", "coo_apply_dense", "onAxis_spec", "onAxis_adjoint",
+    "onAxis_wellformed", "unravel_ravel_id", "ravel_unravel_id", "cq_isConj", "ofRows_adjoint",
+    # per operator: documented definition as closed formula
+    "gather_spec", "gather_adj_spec", "gather_perm_unitary", "contraction_spec", "contraction_adj_spec",
+    "weightApplier_spec", "weightApplier_modes", "distributor1_spec", "distributor1_adj_spec", "distributor_spec",
+    "mask_spec", "mask_rows", "mask_adj_spec", "mask_adj_flagged", "pad1_plain_spec", "pad1_central_spec",
+    "valueInserter_spec", "outerProduct_spec", "vdot_spec", "vdot_adj_spec", "diag_spec", "conjugation_involutive",
+    "conjugation_spec", "realizer_idempotent", "regrid1_spec", "matrixProduct1_spec", "transpose2_inverse_partial")]
 RULE = ("one case = (operator class, constructor configuration generated from RGSpace/UnstructuredDomain/DOFSpace tuples of "
         "1-3 sub-domains with axis lengths 1-4(5), spaces subset, index arrays, flags, weights, dtype); non-trivial = the "
         "operator was constructed and has at least one non-zero matrix entry; distinct by canonical JSON of the case")
